@@ -201,7 +201,7 @@ func (x *Exec) schemaCall(st *State, method string, recv Value, bufv Value, in s
 			st.mut(buf).Seq = Cat(u0, W(mv0))
 		} else {
 			st.assume(Implies(okc, errNil))
-			st.assume(Implies(errNil, And(Eq(u1, Cat(u0, W(mv0))), post)))
+			st.assume(Implies(errNil, And(okc, Eq(u1, Cat(u0, W(mv0))), post)))
 		}
 		st.alloc = Add(st.alloc, IntC(0))
 	} else {
